@@ -233,7 +233,7 @@ def check(ctx, stats, samples):
         stats["norm_checks"] += 1
         if model.canon_ty(got) != model.canon_ty(exp):
             ctx.violation(f"normalize_type gives {got} but the model's norm gives {exp}", {"spec": spec, "surface": s}, kind="correspondence")
-            return
+            break          # the tie is broken: the behaviour of the respellings is still compared below (no model involved)
     # 2. behaviour: every respelling behaves like the first spelling
     inst = [c for c in [2, 3] + w.user_ids() if w.instantiable(c)]
     # arguments as descriptors (so that a replay rebuilds exactly these calls): ["I", class id] instance, ["V", encoded value], ["C", class id] a passed class
